@@ -1,6 +1,7 @@
 // C05 correspondence harness: MDS / Kernel PCA / Isomap(k = N-1) through the PUBLIC API, with the
 // eigen-observer hook capturing the exact matrix handed to the eigensolver and the (V, lambda) it returned.
-// in : mds method=mds|kpca|isomap N=4 d=2 solver=dense|rand in=dist|kern|pts seed=3 data=r;r;...
+// in : mds method=mds|kpca|isomap N=4 d=2 solver=dense|rand in=dist|kern|pts seed=3 data=r;r;... [sel=ids alldata=r;r;...]
+//      with `sel` the library is handed that id range (callbacks defined on ids over `alldata`); `data` = the selected samples
 // out: ok pre=<NxN> V=<Nxd> lam=<d> Y=<Nxd>       (numbers as exact dyadics)   |  throw:<class>
 #include "vspectral.hpp"
 
@@ -10,11 +11,9 @@ static std::string run_case(std::map<std::string, std::string>& f)
 {
     const std::string meth = f["method"], inp = f["in"];
     const int N = std::stoi(f["N"]), d = std::stoi(f["d"]);
-    DenseMatrix data = vs::parse_mat(f["data"]);
+    DenseMatrix data = vs::all_data(f);
     std::srand((unsigned)std::stoul(f.count("seed") ? f["seed"] : "1"));
-    std::vector<IndexType> idx(N);
-    for (int i = 0; i < N; ++i)
-        idx[i] = i;
+    std::vector<IndexType> idx = vs::ids(f, N);
     vs::reset_observed();
     TapkeeOutput out;
     ParametersSet params = (method = vs::method_by_name(meth), target_dimension = d,
